@@ -355,6 +355,29 @@ def case_label(case):
     return "virtual|%s|%s|%s" % ("root" if not w["path"] else "inner", case["cache"]["kind"], w["gen"]["kind"])
 
 
+def nested_strings(desc):
+    """does the type have a string / bytestring below at least two list levels?"""
+    try:
+        T = M.decode(desc)[0]
+    except M.Invalid:
+        return False
+
+    def walk(t, lists):
+        k = t[0]
+        if k in ("string", "bytes"):
+            return lists >= 2
+        if k in ("list", "regular"):
+            return walk(t[1], lists + 1)
+        if k == "option":
+            return walk(t[1], lists)
+        if k == "record":
+            return any(walk(ft, lists) for _, ft in t[1])
+        if k == "union":
+            return any(walk(x, lists) for x in t[1])
+        return False
+    return walk(T, 0)
+
+
 def eager_known(spec, srcdesc):
     """name of a known finding (of any property) whose region contains this step on the eager twin, else None"""
     try:
@@ -589,6 +612,11 @@ def _run_virtual(case, run):
             except M.Invalid:
                 tags.append("step:eager_source_unevaluable")
                 continue
+        if op in ("reduce", "sort", "argsort") and nested_strings(srcdesc):
+            # the non-local reduce/sort machinery overflows its buffers on the EAGER twin for strings below two list levels (the crash
+            # family of reduce_nonlocal_deep / sort_nonlocal_deep, whose predicates count levels without the string's own): not run
+            tags.append("step_skipped:reduce_sort_on_nested_strings")
+            continue
         excl = (K.pre_exclude(spec, srcdesc) if op in CATALOGUE else None) or eager_known(spec, srcdesc)
         if excl is not None:
             tags.append("step_skipped:" + excl)
